@@ -82,6 +82,10 @@ PROPS = {
                 trusted=["aes / polyval / aes-gcm-siv crates are modelled: the block cipher and POLYVAL are parameters of the theorems; the concrete Lean AES-128/POLYVAL instance is validated by interoperating with the crate in both directions"],
                 assumptions=["'decrypting under any other key or after changing any bit returns nothing' is not a mathematical fact for a fixed key: the theorem gives the exact necessary condition (a 128-bit tag collision); the run flips all 288 bits and tries other keys",
                              "rand::OsRng nonce generation is external (C19)"]),
+    "C14": dict(module="ZkElGamal.Props.C14", ns="Zk.Props.C14",
+                trusted=["sha3 is modelled (arbitrary function in theorems, concrete Keccak in the driver)", DALEK],
+                assumptions=["PBKDF2 (solana-seed-phrase) and ed25519 signing (solana-keypair) are external: the SDK's key must equal the model's derivation from the PBKDF2 output / the produced signature",
+                             "'never changes' is met by pinning kat/kdf.ops (committed, never regenerated by a check)"]),
     "C15": dict(module="ZkElGamal.Props.C15", ns="Zk.Props.C15", extra=[consts_check], exhaustive=True,
                 assumptions=["solana_instruction::Instruction / AccountMeta and bytemuck::bytes_of are external (modelled)"]),
     "C16": dict(module="ZkElGamal.Props.C16", ns="Zk.Props.C16", extra=[consts_check], exhaustive=True,
@@ -172,6 +176,11 @@ MANIFEST_TEXT = {
         text="Theorems: decryptAmount(encryptAmount key nonce x) = x for every key, 12-byte nonce and x < 2^64 (CTR involution + SIV tag recomputation); ciphertext = nonce(12) || 8 || tag(16); a successful decryption of any 36 bytes implies the last 16 bytes equal the SIV tag of the recovered plaintext (so tampering / another key succeeds only on a 128-bit collision). "
              "Correspondence: SDK-encrypted -> model-decrypted and model-encrypted -> SDK-decrypted on boundary/random keys and amounts (conformance to RFC 8452 of both), all 288 single-bit flips of sampled ciphertexts, flipped and random other keys, wrong lengths: both sides must return nothing.",
         note="Trusted: Lean kernel; AES/POLYVAL external (parameters in the theorems). Collision-freeness is not claimed."),
+    "C14": dict(
+        technique="Lean 4 proof (seed-length acceptance iff, derivation shape, domain separation of the signed messages, zero-signature refusal) + differential correspondence with a recording signer, real signers, seed phrases, and pinned derivation vectors",
+        text="Theorems: from_seed accepted iff 32..65535 (ElGamal) / 16..65535 (AE) for every length; scalar = wide-reduce(SHA3-512(SHA3-512(sig))), AE key = first 16 bytes; the messages signed for the two key types differ for all seeds and determine the public seed; the all-zero signature is refused; prefixes are those in the source. "
+             "Correspondence: signatures/seeds (random, all-zero, all-ones), seed lengths 0..65537 around both bounds, recording signer (reports the message), real ed25519 signers and seed phrases with edge-whitespace/unicode passphrases (the SDK key must equal the derivation from the signature / PBKDF2 output), determinism (two calls), kat/kdf.ops.",
+        note="Trusted: Lean kernel; sha3/dalek modelled; PBKDF2 and ed25519 external."),
     "C15": dict(
         technique="Lean 4 proof (encode/decode laws for all inputs; `decide +kernel` over the enum/struct tables regenerated from source) + differential correspondence with the SDK encoders/decoders",
         text="Theorems: the ProofInstruction enum regenerated from instruction.rs equals the documented v1 table (0..12); layout, account order/flags, "
